@@ -6,6 +6,7 @@ import (
 	"os"
 	"os/exec"
 	"path/filepath"
+	"runtime"
 	"sort"
 	"strings"
 	"sync"
@@ -212,7 +213,9 @@ func firstLine(s string) string {
 func runSeeds(exe string, def *PropDef, repo, vdir string) []mutantResult {
 	out := runSeedDir(exe, def, repo, vdir, "seeded", false)
 	// behaviour-preserving refactorings from independent sub-agents: this property's rules must stay silent on every one
-	out = append(out, runSeedDir(exe, def, repo, vdir, "seeded-equivalent", true)...)
+	if os.Getenv("PRUNNERLINT_AUDIT_NO_EQUIV") == "" { // development aid: the full sweep is tools/all_equiv.sh
+		out = append(out, runSeedDir(exe, def, repo, vdir, "seeded-equivalent", true)...)
+	}
 	return out
 }
 
@@ -222,7 +225,11 @@ func runSeedDir(exe string, def *PropDef, repo, vdir, sub string, equivalent boo
 	var out []mutantResult
 	var mu sync.Mutex
 	var wg sync.WaitGroup
-	sem := make(chan struct{}, 6)
+	par := runtime.NumCPU() - 4
+	if par < 4 {
+		par = 4
+	}
+	sem := make(chan struct{}, par)
 	for _, mf := range metas {
 		mf := mf
 		b, err := os.ReadFile(mf)
